@@ -1,38 +1,129 @@
 #![allow(dead_code)]
-mod rt;
-mod payload;
+mod gen;
 mod handles;
 mod model;
 mod ops;
-use handles::*;
-use ops::*;
-use rt::*;
+mod oracles;
+mod payload;
+mod props;
+mod rt;
+mod runner;
 
-fn main(){
-    let q = QCfg{flavour: Flavour::Broadcast, futures:false, cap:2, wait: WaitKind::Block(0,0), fut_spins:None};
-    // sequential
-    let sc = Scenario{ q, progs: vec![Prog{ops: vec![Op::TrySend{tx:0},Op::TrySend{tx:0},Op::TrySend{tx:0},Op::TryRecv{rx:0},Op::AddStream{rx:0},Op::TryRecv{rx:0},Op::TryRecv{rx:40000},Op::TryRecv{rx:0}, Op::DropTx{tx:0}, Op::TryRecv{rx:0}, Op::Recv{rx:40000}, Op::Recv{rx:40000}], ret:false}], sched: Schedule::none(), opts: ExecOpts{model:true, solo_base: Some(500), ..Default::default()} };
-    let e = run_scenario(&sc);
-    println!("{:?} steps={} viol={:?}", e.outcome.verdict, e.outcome.steps, e.viol);
-    for c in &e.calls { println!("  {:?}", c); }
-    println!("ledger {:?}", e.ledger);
-    // concurrent: producer thread + consumer thread
-    let t0 = std::time::Instant::now();
-    let mut total_steps=0;
-    for seed in 0..2000u32 {
-        let bytes: Vec<u8> = (0..200).map(|i| ((seed.wrapping_mul(2654435761).wrapping_add(i*40503)) >> 13) as u8).collect();
-        let sc = Scenario{ q, progs: vec![
-            Prog{ops: vec![Op::CloneRx{rx:0}, Op::Spawn{prog:1, tx:vec![0], rx:vec![]}, Op::Spawn{prog:2, tx:vec![], rx:vec![0]}, Op::Drain{rx:0, how:DrainHow::Blocking, extra:1}, Op::JoinAll], ret:false},
-            Prog{ops: (0..6).map(|_| Op::Send{tx:0,max:0}).collect(), ret:false},
-            Prog{ops: vec![Op::Drain{rx:0, how:DrainHow::Try, extra:1}], ret:false},
-        ], sched: Schedule{policy: Policy::Walk{stay:200,target:None,stay_target:0}, bytes}, opts: ExecOpts::default() };
-        let e = run_scenario(&sc);
-        total_steps += e.outcome.steps;
-        if e.outcome.verdict != Verdict::Completed || !e.viol.is_empty() || !e.ledger.events.is_empty() || !e.ledger.live_at_end.is_empty() || seed==0 {
-            println!("seed {} {:?} steps={} switches={} viol={:?} ledger={:?}", seed, e.outcome.verdict, e.outcome.steps, e.outcome.switches, e.viol, e.ledger);
-            for t in &e.outcome.threads { println!("   {:?}", t); }
-            if seed != 0 { for c in &e.calls { println!("  {:?}", c); } break; }
+use runner::{KnownFile, Tier, ViolationReport};
+use std::collections::BTreeMap;
+
+fn arg<'a>(args: &'a [String], name: &str) -> Option<&'a str> {
+    args.iter()
+        .position(|a| a == name)
+        .and_then(|i| args.get(i + 1))
+        .map(|s| s.as_str())
+}
+
+fn load_known(path: Option<&str>) -> KnownFile {
+    match path {
+        Some(p) => match std::fs::read_to_string(p) {
+            Ok(s) => serde_json::from_str(&s).unwrap_or_else(|e| {
+                eprintln!("cannot parse {}: {}", p, e);
+                std::process::exit(2)
+            }),
+            Err(_) => KnownFile::default(),
+        },
+        None => KnownFile::default(),
+    }
+}
+
+fn main() {
+    let args: Vec<String> = std::env::args().collect();
+    if args.len() < 2 {
+        eprintln!("usage: mqv run|replay|list ...");
+        std::process::exit(2);
+    }
+    let reg = props::registry();
+    match args[1].as_str() {
+        "list" => {
+            for d in &reg {
+                println!("{} parts={:?}", d.id, d.parts.iter().map(|p| p.name).collect::<Vec<_>>());
+            }
+        }
+        "run" => {
+            let prop = arg(&args, "--prop").expect("--prop");
+            let tier = match arg(&args, "--tier").unwrap_or("quick") {
+                "thorough" => Tier::Thorough,
+                _ => Tier::Quick,
+            };
+            let seed: u64 = arg(&args, "--seed").and_then(|s| s.parse().ok()).unwrap_or(0);
+            let (shard, nshards) = match arg(&args, "--shard") {
+                Some(s) => {
+                    let mut it = s.split('/');
+                    (
+                        it.next().unwrap().parse::<u32>().unwrap(),
+                        it.next().unwrap().parse::<u32>().unwrap(),
+                    )
+                }
+                None => (0, 1),
+            };
+            let scale: f64 = arg(&args, "--scale").and_then(|s| s.parse().ok()).unwrap_or(1.0);
+            let known = load_known(arg(&args, "--known"));
+            let def = match reg.iter().find(|d| d.id == prop) {
+                Some(d) => d,
+                None => {
+                    eprintln!("unknown property {}", prop);
+                    std::process::exit(2);
+                }
+            };
+            rt::sched();
+            let rep = runner::run_prop(def, tier, seed, shard, nshards, &known, arg(&args, "--part"), scale);
+            let mut meta = BTreeMap::new();
+            meta.insert("rule", serde_json::json!(def.rule));
+            meta.insert("assumptions", serde_json::json!(def.assumptions));
+            let out = serde_json::json!({"report": rep, "meta": meta});
+            match arg(&args, "--out") {
+                Some(p) => std::fs::write(p, serde_json::to_string(&out).unwrap()).unwrap(),
+                None => println!("{}", serde_json::to_string_pretty(&out).unwrap()),
+            }
+        }
+        "replay" => {
+            let file = arg(&args, "--file").expect("--file");
+            let known = load_known(arg(&args, "--known"));
+            let text = std::fs::read_to_string(file).unwrap_or_else(|e| {
+                eprintln!("cannot read {}: {}", file, e);
+                std::process::exit(2)
+            });
+            let v: serde_json::Value = serde_json::from_str(&text).unwrap();
+            let prop = v["property"].as_str().unwrap_or("").to_string();
+            let vr: ViolationReport = serde_json::from_value(v["case"].clone()).unwrap_or_else(|e| {
+                eprintln!("bad replay file: {}", e);
+                std::process::exit(2)
+            });
+            let def = reg.iter().find(|d| d.id == prop).unwrap_or_else(|| {
+                eprintln!("unknown property {}", prop);
+                std::process::exit(2)
+            });
+            rt::sched();
+            let (findings, ex) = runner::replay(def, &vr, &known);
+            let same_trace = runner::rle(&ex.outcome.trace) == vr.trace_rle;
+            let out = serde_json::json!({
+                "property": prop,
+                "findings": findings,
+                "verdict": format!("{:?}", ex.outcome.verdict),
+                "same_trace_as_recorded": same_trace,
+                "calls": ex.calls.len(),
+            });
+            println!("{}", serde_json::to_string_pretty(&out).unwrap());
+            if arg(&args, "--verbose").is_some() || args.iter().any(|a| a == "-v") {
+                for c in &ex.calls {
+                    println!("  {:?}", c);
+                }
+                for t in &ex.outcome.threads {
+                    println!("  thread {:?}", t);
+                }
+                println!("  ledger {:?}", ex.ledger);
+            }
+            std::process::exit(if findings.is_empty() { 0 } else { 1 });
+        }
+        other => {
+            eprintln!("unknown command {}", other);
+            std::process::exit(2);
         }
     }
-    println!("2000 execs in {:?}, avg steps {}", t0.elapsed(), total_steps/2000);
 }
